@@ -41,7 +41,10 @@ INVS = ["C01_Targets", "C05_ShiftedCurves", "C05_ShiftedTouchesZero", "C05_Spans
         "C05_SameTargetsOnBothTables", "C05_RowWise", "C06_Pinch", "EmitCase"]
 
 
-def tlc_cases(name, overrides=None, invs=INVS, emit=True):
+BIG = {"deepA": 16}     # configurations whose case export would not fit: model-checked in full, one shard of inputs exported and replayed
+
+
+def tlc_cases(name, overrides=None, invs=INVS, emit=True, shard=0, nshards=1):
     """One TLC run (16 workers; a PrintT line is atomic) over the whole bounded input space."""
     import tempfile, shutil
     from pathlib import Path
@@ -49,7 +52,7 @@ def tlc_cases(name, overrides=None, invs=INVS, emit=True):
     consts.update(CFG[name])
     if overrides:
         consts.update(overrides)
-    consts.update(DoEmit=emit, Shard=0, NShards=1)
+    consts.update(DoEmit=emit, Shard=shard, NShards=nshards)
     tmp = Path(tempfile.mkdtemp(prefix="tlccfg_"))
     try:
         cfg = tmp / "mc.cfg"
@@ -320,7 +323,15 @@ def check(prop: str, tier: str, run: Run, replay_case=None):
     nontriv = set()
     seen_samples = 0
     for name in names:
-        res = tlc_cases(name)
+        if name in BIG:
+            full = tlc_cases(name, emit=False)          # Leg M on the whole input space
+            run.add_tlc(full, name + " (model check, no export)")
+            if full.violated:
+                run.machinery_errors.append(f"Leg M: spec/Cascade.tla violates {full.violated} in config {name}:\n{full.error_trace[:1500]}")
+                continue
+            res = tlc_cases(name, shard=seed() % BIG[name], nshards=BIG[name])      # Leg R on one shard of it (index sum mod n)
+        else:
+            res = tlc_cases(name)
         run.add_tlc(res, name)
         if res.violated:
             # design-level counterexample: the specification itself violates the property
